@@ -212,8 +212,19 @@ class MpWriter(SegmentWriter):
 
     def cancel(self):
         try:
+            # The sub-writers run in other processes: a flag set on the task
+            # objects in this process never reaches them, and they would go
+            # on waiting for (and reading) job files in the temporary
+            # directory. Tell them to finish through the job queue, as
+            # commit does, and wait for them, so that nothing uses the
+            # temporary directory any more when it is removed. (What they
+            # have written is never added to the TOC; the next commit cleans
+            # it up.)
             for task in self.tasks:
                 task.cancel()
+                self.jobqueue.put(None)
+            for task in self.tasks:
+                task.join()
         finally:
             SegmentWriter.cancel(self)
 
